@@ -139,8 +139,11 @@ inline History histParse(const std::string& t) {
 
 static const int NSCALARS = 15;
 static const char* kScalarName[] = {"null", "true", "42", "-7e10", "1.5", "1e100", "\"k\"linked", "\"k\"copied", "\"v2\"copied", "raw[1]", "raw\\xc9", "raw\\xc6\\x80000000", "18446744073709551615", "MsgPackBinary(ab)", "MsgPackExtension(1,x)"};
-static const char* kTexts[] = {"{\"k\":[1,\"k\"]}", "[1e100,\"v2\"]", "\"k\"", "[1,", "msgpack{\"k\":[1,\"k\"]}", "[\"k\",\"k\\u0000x\"]", "[0,1,2,3,4,5,6,7,8]"};
-static const int NTEXTS = 7;  // the last one (nine slots: three 4-slot pools, pool table on the heap) is only used by --init=bulk
+static const char* kTexts[] = {"{\"k\":[1,\"k\"]}", "[1e100,\"v2\"]", "\"k\"", "[1,", "msgpack{\"k\":[1,\"k\"]}", "[\"k\",\"k\\u0000x\"]", "[0,1,2,3,4,5,6,7,8]", "msgpack{\"k\":1,\"k\":\"k\"}"};
+static const int NTEXTS = 8;
+static const int BULK_TEXT = 6;    // nine slots: three 4-slot pools, pool table on the heap; only used by --init=bulk
+static const int DUPKEY_TEXT = 7;  // a MessagePack map that repeats a key (both entries are kept, in order)
+static const char kMsgPackDup[] = "\x82\xa1k\x01\xa1k\xa1k";
 static const char kMsgPackText[] = "\x81\xa1k\x92\x01\xa1k";  // {"k":[1,"k"]}
 
 inline std::string opText(const Op& o) {
@@ -472,7 +475,13 @@ inline Expect modelApply(World& W, const Op& o) {
       if (!t) { E.ret = ""; E.mutates = false; break; }
       if (o.path.empty()) killDoc(W, o.doc); else killBelow(W, o.doc, o.path, false);
       MValue v;
-      if (refjson::parse(kTexts[o.a == 4 ? 0 : o.a], v)) {
+      if (o.a == DUPKEY_TEXT) {
+        MValue ob = MValue::object();
+        ob.o.emplace_back("k", MValue::integer(1));
+        ob.o.emplace_back("k", MValue::str("k"));
+        *t = ob;
+        E.ret = "Ok";
+      } else if (refjson::parse(kTexts[o.a == 4 ? 0 : o.a], v)) {
         std::function<void(MValue&)> strip = [&](MValue& m) { if (m.isNumber()) m.s.clear(); for (auto& e : m.a) strip(e); for (auto& kv : m.o) strip(kv.second); };
         strip(v);
         *t = refjson::dedup(v, true);
@@ -766,11 +775,13 @@ inline std::string realApply(Real& R, const Op& o) {
     case SHRINK: d.shrinkToFit(); return "";
     case DESERIALIZE: {
       DeserializationError e;
-      if (o.a == 4) {
-        if (atRoot) e = deserializeMsgPack(d, kMsgPackText, sizeof(kMsgPackText) - 1);
+      if (o.a == 4 || o.a == DUPKEY_TEXT) {
+        const char* mp = o.a == 4 ? kMsgPackText : kMsgPackDup;
+        size_t mpLen = o.a == 4 ? sizeof(kMsgPackText) - 1 : sizeof(kMsgPackDup) - 1;
+        if (atRoot) e = deserializeMsgPack(d, mp, mpLen);
         else {
           JsonVariant v = resolve(d, o.path);
-          e = deserializeMsgPack(v, kMsgPackText, sizeof(kMsgPackText) - 1);
+          e = deserializeMsgPack(v, mp, mpLen);
         }
       } else if (atRoot) e = deserializeJson(d, kTexts[o.a]);
       else {
@@ -886,8 +897,8 @@ inline void enabledOps(const World& W, const Alphabet& AB, std::vector<Op>& out)
       o.doc2 = 0;
       o.path2.clear();
       // deserialization into this value
-      for (int k = 0; k < NTEXTS - 1; k++) {
-        if (!AB.full && (k == 1 || k == 2)) continue;
+      for (int k = 0; k < NTEXTS; k++) {
+        if (k == BULK_TEXT || (!AB.full && (k == 1 || k == 2))) continue;
         o.code = DESERIALIZE; o.a = k; out.push_back(o);
       }
       // handles
@@ -1207,7 +1218,7 @@ inline History initHistory(const std::string& name) {
     Op o;
     o.code = DESERIALIZE;
     o.doc = 0;
-    o.a = NTEXTS - 1;
+    o.a = BULK_TEXT;
     h.push_back(o);
   } else if (name == "bulk-freed") {  // as bulk, then two elements removed: a populated free list across pools
     h = initHistory("bulk");
